@@ -6,6 +6,7 @@ import (
 	"net/http"
 	"net/url"
 	"os"
+	"reflect"
 	"strconv"
 	"strings"
 
@@ -335,43 +336,23 @@ func (x *X) makeInput(op *Op, b *Built) (any, func()) {
 			m[kv.K] = scalarString(kv.V)
 		}
 		return m, noop
+	case "gostruct":
+		// the same record held in Go structs (what Parse accepts besides maps): one exported field per present key
+		in := op.Input
+		if !raw {
+			in = RenameKeys(b.N, op.Input, "")
+		}
+		x.Faults["struct_source"]++
+		return GoStructOf(b.N, op.Input, in), noop
 	case "zjson":
 		body := op.IOBody(b, "json")
 		rd := NewSimReader([]byte(body), op.IO, x.Faults)
 		return zjson.Decode(rd), noop
 	case "zhttp":
-		io := op.IO
-		if io == nil {
-			io = &IOSpec{Method: "POST", CT: "application/json", BodyKind: "json"}
+		if rq, ok := x.given.(*http.Request); ok && op.Arg == "given" {
+			return zhttp.Request(rq), noop
 		}
-		u := "http://example.test/p"
-		q := io.Query
-		if io.QueryIn != nil {
-			q = FormEncode(FlatPairs(RenameKeys(b.N, *io.QueryIn, "query")))
-		}
-		if q != "" {
-			u += "?" + q
-		}
-		var body *SimReader
-		req, err := http.NewRequest(io.Method, "http://example.test/p", nil)
-		if err != nil {
-			panic("harness: bad request spec: " + err.Error())
-		}
-		pu, err := url.Parse(u)
-		if err != nil {
-			pu = &url.URL{Scheme: "http", Host: "example.test", Path: "/p", RawQuery: q}
-		}
-		req.URL = pu
-		if io.NoBody {
-			req.Body = http.NoBody
-		} else if !io.NilBody && io.BodyKind != "none" {
-			body = NewSimReader([]byte(op.IOBody(b, io.BodyKind)), io, x.Faults)
-			req.Body = body
-		}
-		if io.CT != "" {
-			req.Header.Set("Content-Type", io.CT)
-		}
-		return zhttp.Request(req), noop
+		return zhttp.Request(x.buildRequest(op, b)), noop
 	case "zenv":
 		in := op.Input
 		if !raw {
@@ -391,6 +372,42 @@ func (x *X) makeInput(op *Op, b *Built) (any, func()) {
 		}
 	}
 	panic("harness: bad front end " + op.Front)
+}
+
+// buildRequest renders the operation as an *http.Request (method, content type, query string, scripted body reader).
+func (x *X) buildRequest(op *Op, b *Built) *http.Request {
+	io := op.IO
+	if io == nil {
+		io = &IOSpec{Method: "POST", CT: "application/json", BodyKind: "json"}
+	}
+	u := "http://example.test/p"
+	q := io.Query
+	if io.QueryIn != nil {
+		q = FormEncode(FlatPairs(RenameKeys(b.N, *io.QueryIn, "query")))
+	}
+	if q != "" {
+		u += "?" + q
+	}
+	var body *SimReader
+	req, err := http.NewRequest(io.Method, "http://example.test/p", nil)
+	if err != nil {
+		panic("harness: bad request spec: " + err.Error())
+	}
+	pu, err := url.Parse(u)
+	if err != nil {
+		pu = &url.URL{Scheme: "http", Host: "example.test", Path: "/p", RawQuery: q}
+	}
+	req.URL = pu
+	if io.NoBody {
+		req.Body = http.NoBody
+	} else if !io.NilBody && io.BodyKind != "none" {
+		body = NewSimReader([]byte(op.IOBody(b, io.BodyKind)), io, x.Faults)
+		req.Body = body
+	}
+	if io.CT != "" {
+		req.Header.Set("Content-Type", io.CT)
+	}
+	return req
 }
 
 // IOBody renders the request/document body.
@@ -443,4 +460,80 @@ func (io *IOSpec) dispatch() string {
 		return "form"
 	}
 	return "query"
+}
+
+func exportedIdent(s string) bool {
+	if s == "" || !(s[0] >= 'A' && s[0] <= 'Z') {
+		return false
+	}
+	for i := 1; i < len(s); i++ {
+		c := s[i]
+		if !(c == '_' || (c >= '0' && c <= '9') || (c >= 'a' && c <= 'z') || (c >= 'A' && c <= 'Z')) {
+			return false
+		}
+	}
+	return true
+}
+
+// GoStructOf renders a logical record as Go struct values: every record below a struct node becomes a struct
+// with one exported, concretely typed field per present key (a key that is no exported identifier cannot be
+// carried and is dropped; a nil value is held in a field of type any). logical is keyed by schema keys, renamed
+// by the keys the source uses.
+func GoStructOf(n *Node, logical, renamed Val) any {
+	switch n.Kind {
+	case "struct":
+		if renamed.K != "m" || logical.K != "m" || len(logical.M) != len(renamed.M) {
+			return renamed.ToGo()
+		}
+		var sf []reflect.StructField
+		var vals []any
+		seen := map[string]int{}
+		for i, kv := range renamed.M {
+			if !exportedIdent(kv.K) {
+				continue
+			}
+			var f *Field
+			for _, ff := range n.Fields {
+				if ff.Key == logical.M[i].K {
+					f = ff
+				}
+			}
+			var gv any
+			if f != nil {
+				gv = GoStructOf(f.N, logical.M[i].V, kv.V)
+			} else {
+				gv = kv.V.ToGo()
+			}
+			t := reflect.TypeOf((*any)(nil)).Elem()
+			if gv != nil {
+				t = reflect.TypeOf(gv)
+			}
+			if j, dup := seen[kv.K]; dup {
+				sf[j].Type, vals[j] = t, gv // a key written twice: the later value, as in a map literal
+				continue
+			}
+			seen[kv.K] = len(sf)
+			sf = append(sf, reflect.StructField{Name: kv.K, Type: t})
+			vals = append(vals, gv)
+		}
+		sv := reflect.New(reflect.StructOf(sf)).Elem()
+		for i, gv := range vals {
+			if gv != nil {
+				sv.Field(i).Set(reflect.ValueOf(gv))
+			}
+		}
+		return sv.Interface()
+	case "slice":
+		if renamed.K != "l" || logical.K != "l" || len(logical.L) != len(renamed.L) {
+			return renamed.ToGo()
+		}
+		out := make([]any, len(renamed.L))
+		for i := range renamed.L {
+			out[i] = GoStructOf(n.Elem, logical.L[i], renamed.L[i])
+		}
+		return out
+	case "ptr", "pre":
+		return GoStructOf(n.Elem, logical, renamed)
+	}
+	return renamed.ToGo()
 }
